@@ -65,7 +65,8 @@ theorem wire_roundtrip_client (T : JsonText F) (dt cdt : DType F) (hwf : dt.WF) 
 their members: `TextComplete`; nothing is asked on a client's type): `to_string`
 answers a text, `from_string` accepts it, the value it is read as has the identical text form and equals `v` at every
 non-float leaf -/
-theorem text_roundtrip (lib : TextLib F) (hl : TextLib.Lawful lib) (dt : DType F) (hwf : dt.WF) (v : PVal F) (hv : Valid dt v) (hc : Canon v) (htc : TextComplete dt v) :
+theorem text_roundtrip (lib : TextLib F) (hl : TextLib.Lawful lib) (dt : DType F) (hwf : dt.WF)
+    (v : PVal F) (hv : Valid dt v) (hc : Canon v) (htc : TextComplete dt v) :
     ∃ t v', toString lib dt v = some t ∧ fromString lib dt t = .ok v' ∧ toString lib dt v' = some t ∧
       SameButFloats v' v := by
   obtain ⟨t, v', h1, h2, h3, h4, _⟩ := text_rt lib hl dt (wft_of_wf dt hwf) v hv hc htc
@@ -102,18 +103,18 @@ theorem client_string_write (lib : TextLib F) (hl : TextLib.Lawful lib) (hb : B6
 client's `updateValue` imports it into a cache entry holding exactly `v`, `str(entry)` is a text `from_string` accepts,
 reading it as `v'` (same text form, equal to `v` at every non-float leaf), and what `setParameterFromString` sends for
 that text is strict JSON of the prescribed kind which the node imports to a value equal to `v'`.
-`Valid cdt v`: the value also lies in the value set of the rebuilt type (its scaled limits are the node's snapped to
-the grid — the same set wherever the grid reproduces the snapped limits; always so for trees without scaled leaves). -/
+`LimitsOnGrid dt`: the grid law at the limits of the scaled leaves (the limits travel as grid indices; nothing is asked
+of a tree without scaled leaves) — then `v` is a valid value of the rebuilt type as well (`Lemmas.C02.valid_clientOf`). -/
 theorem client_cache_string_write (lib : TextLib F) (hl : TextLib.Lawful lib) (hb : B64Law) (dt cdt : DType F) (hwf : dt.WF)
-    (hc : clientOf dt = some cdt) (v : PVal F) (hv : Valid dt v) (hvc : Valid cdt v)
-    (hcan : Canon v) :
+    (hlim : LimitsOnGrid dt) (hc : clientOf dt = some cdt) (v : PVal F) (hv : Valid dt v) (hcan : Canon v) :
     ∃ j item t v' j' v'', exportValue dt v = .ok j ∧ updateValue cdt j = .ok item ∧ item.value = v ∧
       item.str lib cdt = some t ∧ fromString lib cdt t = .ok v' ∧ toString lib cdt v' = some t ∧ SameButFloats v' v ∧
       clientSetFromString lib cdt t = .ok j' ∧ KindOK dt j' ∧ StrictJ j' ∧ importValue dt j' = .ok v'' ∧ pyEq v'' v' = true := by
   obtain ⟨j, w, h1, _, _, _, h4, _, h6⟩ := wire_core dt v hwf hv hb
   have hw : w = v := h6 hcan
   subst hw
-  obtain ⟨t, v', j', v'', c1, c2, c3, c4, c5, c6, c7, c8, c9⟩ := client_string_write lib hl hb dt cdt hwf hc w hvc hcan
+  obtain ⟨t, v', j', v'', c1, c2, c3, c4, c5, c6, c7, c8, c9⟩ :=
+    client_string_write lib hl hb dt cdt hwf hc w (valid_clientOf dt cdt w hlim hc hv) hcan
   exact ⟨j, ⟨w, none⟩, t, v', j', v'', h1, by simp [updateValue, client_imports_alike dt cdt hc, h4], rfl, c1, c2, c3, c4, c5,
     c6, c7, c8, c9⟩
 
@@ -165,6 +166,14 @@ def exClient : DType Rat :=
   .struct [("a", .tuple [.scaled (1/10) 0 10 (1/10) 0]), ("b", .array (.enum [("off", 0), ("on", 1)]) 0 3),
     ("c", .string 0 5 true)] ["c"] true
 
+theorem exTree_limits : LimitsOnGrid exTree := by
+  have h0 : DType.snap (1/10 : Rat) 0 = some 0 := by decide +kernel
+  have h10 : DType.snap (1/10 : Rat) 10 = some 10 := by decide +kernel
+  simp only [exTree, LimitsOnGrid, LimitsOnGridFields, LimitsOnGridList, and_true, h0, h10, Option.some.injEq]
+  refine ⟨fun lo h => ?_, fun hi h => ?_⟩
+  · subst h; decide +kernel
+  · subst h; decide +kernel
+
 theorem exClient_eq : clientOf exTree = some exClient := by
   simp [exTree, exClient, clientOf, clientOfFields, clientOfList, clientScaled, DType.gridIndex, FloatOps.div, FloatOps.round,
     FloatOps.ofInt, FloatOps.mul]
@@ -194,9 +203,8 @@ example (hb : B64Law) : ∃ j item t v' j' v'', exportValue exTree exValue = .ok
     item.value = exValue ∧ item.str exLib exClient = some t ∧ fromString exLib exClient t = .ok v' ∧
     toString exLib exClient v' = some t ∧ SameButFloats v' exValue ∧ clientSetFromString exLib exClient t = .ok j' ∧
     KindOK exTree j' ∧ StrictJ j' ∧ importValue exTree j' = .ok v'' ∧ pyEq v'' v' = true :=
-  client_cache_string_write exLib exLib_lawful hb exTree exClient exTree_wf exClient_eq
+  client_cache_string_write exLib exLib_lawful hb exTree exClient exTree_wf exTree_limits exClient_eq
     exValue exValue_valid
-    (of_decide_eq_true (by decide +kernel : validB exClient exValue = true))
     (by simp [exValue, Canon, CanonFields, CanonList, FloatOps.same, FloatOps.addZero])
 
 /-- a tree without struct for the text theorem: `array of tuple(enum)` (one-member tuples) -/
